@@ -59,7 +59,7 @@ def fault_disp():
     )  # fmt: skip
     ys = st.one_of(st.none(), P.sv_strategy(), st.lists(P.sv_strategy(), min_size=1, max_size=2))
     # an exit that returns True ("handled") must not make the scope swallow anything
-    exit_beh = st.one_of(beh, beh, beh, st.just({"b": "ok", "ret": True}))
+    exit_beh = st.one_of(beh, beh, beh, st.just({"b": "ok", "ret": True}), st.just({"b": "ok", "spawn_task": 0.5}))
     return st.builds(
         lambda e, y, x, a: {"enter": e, "yields": y, "exit": x, "as": a}, enter_beh, ys, exit_beh, st.sampled_from(["list", "list", "iter"])
     )
@@ -157,7 +157,7 @@ def failing_body_program():
             "body": [
                 {"k": "scope", "mode": "async", "name": "root", "state": [{"type": "A", "v": 1}], "disp": None, "disp_obj": False, "body": [
                     {"k": "scope", "mode": "async", "name": "s", "state": [{"type": "B", "v": 2}], "disp_obj": False,
-                     "disp": None if mode == 0 else [{"enter": {"b": "ok"}, "yields": None, "exit": {"b": "suspend_ok", "t": 0.25}, "as": "list"}],
+                     "disp": None if mode == 0 else [{"enter": {"b": "ok"}, "yields": None, "exit": {"b": "suspend_ok", "t": 0.25} if mode == 1 else {"b": "ok", "spawn_task": 0.5}, "as": "list"}],
                      "body": [*[{"k": "spawn", "via": via, "body": [{"k": "wait", "gate": 7}]} for _ in range(n_tasks)], *([{"k": "yield"}] * pause), {"k": "raise", "exc": exc}]},
                     {"k": "probe", "lookups": [], "fp": True},
                 ]},
@@ -165,7 +165,7 @@ def failing_body_program():
             ],
             "releases": [],
         },
-        st.sampled_from(sorted(EXC)), st.integers(1, 2), st.integers(0, 2), st.integers(0, 1), st.sampled_from(["ctx", "ctx", "asyncio"]),
+        st.sampled_from(sorted(EXC)), st.integers(1, 2), st.integers(0, 2), st.integers(0, 2), st.sampled_from(["ctx", "ctx", "asyncio"]),
     )  # fmt: skip
 
 
@@ -184,6 +184,28 @@ def absorbing_disposable_program():
             "releases": [],
         },
         st.integers(1, 2), st.tuples(ab, ab), st.tuples(ab, ab), st.integers(0, 2), st.integers(0, 1), st.sampled_from([None, None, {"k": "raise", "exc": "Exception"}]),
+    )  # fmt: skip
+
+
+def handler_program():
+    """a block (with spawned tasks) entered inside an `except` clause of the surrounding code and ended normally / by its own
+    failure: it is left the way ITS body ended - tasks awaited after a normal end, nothing of the handled exception re-raised"""
+    return st.builds(
+        lambda handled, mode, n_tasks, pause, end, nested: {
+            "body": [
+                {"k": "scope", "mode": "async", "name": "root", "state": [{"type": "A", "v": 1}], "disp": None, "disp_obj": False, "body": [
+                    {"k": "scope", "mode": mode, "name": "cleanup", "state": [{"type": "B", "v": 2}], "disp": None, "disp_obj": False, "in_handler": handled,
+                     "body": [*[{"k": "spawn", "via": "ctx", "body": [{"k": "sleep", "t": 0.5}]} for _ in range(n_tasks)], *([{"k": "yield"}] * pause),
+                              *([{"k": "scope", "mode": "async", "name": "inner", "state": [], "disp": None, "disp_obj": False, "body": [{"k": "spawn", "via": "ctx", "body": [{"k": "sleep", "t": 0.25}]}]}] if nested else []),
+                              *([end] if end else [])]},
+                    {"k": "probe", "lookups": [], "fp": True},
+                ]},
+                {"k": "probe", "lookups": [], "fp": True},
+            ],
+            "releases": [],
+        },
+        st.sampled_from(["Exception", "OwnCancelled", "BaseExc", "FalsyExc"]), st.sampled_from(["async", "async", "sync"]), st.integers(0, 2), st.integers(0, 1),
+        st.sampled_from([None, None, {"k": "raise", "exc": "Exception"}]), st.booleans(),
     )  # fmt: skip
 
 
